@@ -112,6 +112,23 @@ pub fn main(args: &crate::Args) {
         }
         writeln!(f, "{id} {:016x}", fnv(&first)).unwrap();
     }
+    // the recursion front end: the verification circuit of a real batch-STARK proof (tables of different
+    // heights) built repeatedly; its digest also goes to the cross-process file
+    if args.u64("verifier-circuit", 1) == 1 {
+        let fps = catch_unwind(AssertUnwindSafe(|| crate::c15::verifier_circuit_fingerprints(repeats.max(2)))).unwrap_or_default();
+        evals += fps.len();
+        if let Some(first) = fps.first() {
+            if let Some((r, other)) = fps.iter().enumerate().find(|(_, x)| *x != first) {
+                violations.push(json!({"property":"C18","kind":"in-process-rebuild-differs","class":"nondeterministic-verifier-circuit",
+                    "repeat": r, "first_difference": format!("{first} | {other}"),
+                    "replay": {"what": "verify_p3_batch_proof_circuit over the harness's fixed batch proof (c15::base_batch), built repeatedly"}}));
+            }
+            writeln!(f, "verifier-circuit:batch {:016x}", fnv(first)).unwrap();
+            *hist.entry("verifier-circuit.builds".into()).or_default() += fps.len() as u64;
+        } else {
+            writeln!(f, "verifier-circuit:batch build-err").unwrap();
+        }
+    }
     f.flush().unwrap();
     let report = json!({"evaluations": evals, "programs": todo.len(), "hist": hist, "violations": violations, "seed": seed});
     std::fs::write(format!("{out}/determinism.{tag}.report.json"), serde_json::to_string_pretty(&report).unwrap()).unwrap();
